@@ -50,7 +50,7 @@ CHECKS = {
         design_ref='DESIGN 6/C01, 11.6',
         note=COMMON_NOTE + "Assumed: the election model of candidates.py selectors (Candidates.select/hopeful/... as abstract "
              "lists with ghost cardinalities nH,nE,nD,nW,nP updated at every status write: card-update lemma), the C15 post-parse "
-             "invariant of rankings, trusted contracts of batchDefeat (wigm-prf) and the Scottish breakTie (bounded stand-in). "
+             "invariant of rankings, trusted contracts of batchDefeat (wigm-prf) and findCertainLosers (mpls) (bounded stand-in). The select model is itself checked against the real body (8 POST obligations). "
              "cfer, meek, warren, meek-prf, qpq count() bodies: bounded only (labelled). nE <= seats and (for mpls) 'the seats are filled': bounded only.",
         technique='contract-based deductive verification of the real count() bodies (loop invariants declared + Houdini-inferred, '
                   'variants, call-site preconditions), z3; bounded run-time monitors as labelled stand-in'),
@@ -79,20 +79,26 @@ CHECKS = {
         category='proof',
         text="transfer(): the ballot moves to the first hopeful candidate of its ranking, every candidate passed over is not "
              "hopeful (loop invariant + variant), exactly its value is credited; ballot invariant 0<=index<=len preserved by "
-             "advance(). Re-weighting formula / tally == sum of ballot values over whole counts: bounded monitor.",
+             "advance(). Inside the verified count() bodies of wigm, wigm-prf, scotland, mpls: at every store to a ballot's weight the "
+             "new value is in [0, old], new x tally <= old x surplus (rounded down, never up) and short of it by less than one unit per "
+             "truncation (exactly equal under exact arithmetic); main-loop invariants: a candidate whose surplus was transferred holds "
+             "exactly the quota, an excluded candidate holds nothing. tally == sum of ballot values over whole counts: bounded monitor.",
         design_ref='DESIGN 6/C06, 11.9',
-        note=COMMON_NOTE + "The re-weighting line (rounded down, never up), 'elected keeps exactly the quota' and tally = sum of "
-             "ballot values are checked at every recorded action by the bounded monitor only (labelled).",
+        note=COMMON_NOTE + "tally = sum of the values of the ballots standing with a candidate (needs a per-candidate sum ledger) "
+             "is checked at every recorded action by the bounded monitor only (labelled); cfer's body is bounded only.",
         technique='contract-based deductive verification of transfer()/Ballot methods; bounded tally monitor as stand-in'),
     'C07': dict(
         category='proof',
         text="breakTie of wigm, wigm-prf, meek, mpls, qpq: result is a tied candidate, a single candidate is returned silently, "
-             "otherwise the first in tie-break order and a 'tie' action is logged (postconditions, any tied list); at the "
-             "single-exclusion sites of wigm, wigm-prf, scotland the excluded candidate has a lowest hopeful tally and the surplus "
+             "otherwise the first in tie-break order and a 'tie' action is logged (postconditions, any tied list); the Scottish breakTie "
+             "(rules 49/51) is proved against its statutory contract: the most recent earlier stage whose saved tallies single one tied "
+             "candidate out (fewest for an exclusion, most for a surplus) decides, else the lot (loop invariant over the saved rounds, "
+             "model of E.rounds backed by SCAN obligations on who writes it); at the single-exclusion sites of wigm, wigm-prf, scotland the excluded candidate has a lowest hopeful tally and the surplus "
              "transferred first is a largest one (site obligations); tie order is read only by byTieOrder (SCAN).",
         design_ref='DESIGN 6/C07, 11.10',
-        note=COMMON_NOTE + "Sure-loser batches (batchDefeat / findCertainLosers), the Scottish prior-stage tie search, meek-family "
-             "and QPQ exclusion sites: bounded monitor only (labelled).",
+        note=COMMON_NOTE + "Sure-loser batches (batchDefeat / findCertainLosers: trusted contracts), meek-family and QPQ exclusion "
+             "sites: bounded monitor only (labelled). A-rounds: E.rounds[n] is the copy of the candidates saved when round n+1 began "
+             "(SCAN: single appender under tag 'round', newRound increments and logs); candidate ids are distinct (A-profile).",
         technique='contract-based deductive verification (closure postconditions with quantified tie-order clause, site '
                   'obligations), AST scan for tie-order reads; bounded monitor as stand-in'),
     'C09': dict(
@@ -167,23 +173,28 @@ CHECKS = {
     'C18': dict(
         category='proof',
         text="Candidate.elect/defeat/unpend change the status and log an action naming that candidate in the same call "
-             "(postconditions with the ghost log); key-safety of the renderers (every key read from an action/candidate state is "
+             "(postconditions with the ghost log); Election.logAction and ElectionRecord.action are verified, not assumed: every call "
+             "appends exactly one action carrying the given tag and message, complete (round, state snapshot, totals, quota in place and "
+             "the rule's recording hook run) at the moment it is appended; the four rule hooks (ElectionRule/MethodWIGM/MethodMeek/qpq "
+             ".action) are each proved never to remove or rewrite those entries (behavioural subtyping); key-safety of the renderers (every key read from an action/candidate state is "
              "written), 'end' is the last action, every rule begins with begin/count, one dump row per action (SCAN). Agreement of "
              "report, dump and JSON with the record on every status/tally/quota: bounded monitor parsing the three renderings back.",
         design_ref='DESIGN 6/C18, 11.18',
-        note=COMMON_NOTE + "ElectionRecord.action/report/dump/json are trusted contracts (nested dict/list text building outside the "
-             "subset); cross-agreement is bounded only.",
+        note=COMMON_NOTE + "ElectionRecord.report/dump/json, _fill, Candidates.cState/copy are trusted contracts (nested dict/list "
+             "text building outside the subset; _fill's frame is a SCAN obligation); cross-agreement of the renderings is bounded only. "
+             "The action list is modelled by the ghost log (count, last tag/message, completeness); header entries are not modelled.",
         technique='contract-based deductive verification of the status writers (change-and-log), AST scans of record.py; bounded '
                   'rendering cross-check'),
     'C19': dict(
         category='proof',
         text="Election.report/dump/json log the interruption marker exactly once whichever are called (contracts on the three "
-             "methods); record['actions'] is only appended to and an action is appended only when complete, the header is filled "
+             "methods); ElectionRecord.action appends an action only when it is complete (postcondition: all entries present "
+             "and the rule hook already run, for every tag; proved on the real body), record['actions'] is only appended to, the header is filled "
              "on demand before any header key is read, no clock/random/IO in the package (SCAN). Every interruption point is then "
              "exercised by the bounded settrace monitor (KeyboardInterrupt at the k-th line event).",
         design_ref='DESIGN 6/C19, 11.19',
-        note=COMMON_NOTE + "'Renderable at every write boundary' is argued from the append-only/complete-before-append scans plus the "
-             "bounded interruption monitor; not an SMT invariant over the record dictionaries.",
+        note=COMMON_NOTE + "'Renderable at every write boundary' is argued from complete-at-append (proved) + append-only (SCAN) + "
+             "header-on-demand (SCAN) plus the bounded interruption monitor; not an SMT invariant over the rendered text.",
         technique='contract-based deductive verification of the marker protocol + AST scans of the record; bounded interruption '
                   'at every line event as stand-in'),
     'C17': dict(
@@ -194,8 +205,9 @@ CHECKS = {
              "option, their count() reads none, merge order in Election.__init__.",
         design_ref='DESIGN 6/C17, 11.4',
         note=COMMON_NOTE + "'identical count whatever options are supplied' is the composition forced-values (proved) + "
-             "option-read frame (SCAN) + no hidden state (C20); Options.record/unused/overrides (the reporting half of sentence 1) "
-             "are not yet under contract.",
+             "option-read frame (SCAN) + no hidden state (C20). Options.record/unused/overrides (the reporting half of sentence 1) are "
+             "proved too (a fresh dictionary with a copy of each layer and the effective value of every name; membership of the unused / "
+             "overridden lists for an arbitrary name); Options.update/parse (command-line splitting) are not under contract.",
         technique='contract-based deductive verification (dictionaries as SMT arrays), AST scans for the option-read frame'),
     'C20': dict(
         category='proof',
